@@ -342,10 +342,8 @@ theorem lenInv_densePass (d1 : Doc) (start : Nat) (h : LenInv d1) (d' : Doc) (hs
   unfold densePass at hs
   split at hs
   · cases hs
-  · split at hs
-    · cases hs
-    · cases hs
-      exact lenInv_traverse _ (tame_rename _) _ _ (movePass_vals _ _ _ _ h)
+  · cases hs
+    exact lenInv_traverse _ (tame_rename _) _ _ (movePass_vals _ _ _ _ h)
 
 theorem decCounts_vals (fuel : Nat) (os : Objects) (r : Option ObjId) (os' : Objects)
     (hd : decCounts fuel os r = some os') (h : ValsOK os) : ValsOK os' := by
